@@ -32,7 +32,8 @@ fn run_case(out: &mut Out, run: &mut u64, case: &Value) {
     let hasmodel = case.get("hasmodel").and_then(|v| v.as_bool()).unwrap_or(false);
     let model = if hasmodel { case["model"].clone() } else { json!([]) };
     out.ev(json!({"ev":"reset","run":*run,"kind":kind,"w":w,"s":s,"nonempty":nonempty,
-                  "hasmodel":hasmodel,"model":model,"case":case}));
+                  "hasmodel":hasmodel,"model":model,
+                  "mflush": case.get("mflush").cloned().unwrap_or(json!({"items":[]})),"case":case}));
     let got: Arc<Mutex<Vec<Value>>> = Arc::new(Mutex::new(Vec::new()));
     let mut report = Report::new();
     for st in strategies(nonempty) {
@@ -48,6 +49,9 @@ fn run_case(out: &mut Out, run: &mut u64, case: &Value) {
                 let fired: Vec<Value> = got.lock().unwrap().drain(..).collect();
                 out.ev(json!({"ev":"add","item":id,"ts":ts,"fired":fired,"panic":r.is_err()}));
             }
+            let r = guarded(|| win.flush());
+            let fired: Vec<Value> = got.lock().unwrap().drain(..).collect();
+            out.ev(json!({"ev":"flush","fired":fired,"panic":r.is_err()}));
         }
         "channel" => {
             let mut win = CSPARQLWindow::new(w, s, report, Tick::TimeDriven, "w".to_string());
@@ -60,6 +64,12 @@ fn run_case(out: &mut Out, run: &mut u64, case: &Value) {
                 }
                 out.ev(json!({"ev":"add","item":id,"ts":ts,"fired":fired,"panic":r.is_err()}));
             }
+            let r = guarded(|| win.flush());
+            let mut fired = Vec::new();
+            while let Ok(c) = rx.try_recv() {
+                fired.push(content_json(&c));
+            }
+            out.ev(json!({"ev":"flush","fired":fired,"panic":r.is_err()}));
         }
         _ => {
             let mut win: WindowRunner<u64> = WindowRunner::new(
@@ -72,6 +82,9 @@ fn run_case(out: &mut Out, run: &mut u64, case: &Value) {
                 let fired: Vec<Value> = win.drain().iter().map(content_json).collect();
                 out.ev(json!({"ev":"add","item":id,"ts":ts,"fired":fired,"panic":r.is_err()}));
             }
+            let r = guarded(|| win.flush());
+            let fired: Vec<Value> = win.drain().iter().map(content_json).collect();
+            out.ev(json!({"ev":"flush","fired":fired,"panic":r.is_err()}));
         }
     }
     out.ev(json!({"ev":"end","run":*run}));
